@@ -156,3 +156,16 @@ class ExcVal:
 
     def __repr__(self):
         return f"ExcVal({self.cls.__name__})"
+
+
+class RefSet:
+    """a set of references given by a predicate (frames of unbounded size: `all parameter tokens of this node`)"""
+    def __init__(self, pred):
+        self.pred = pred
+
+
+def in_frame(ref, items):
+    """z3 Bool: ref is one of the items (z3 Int references or RefSets)"""
+    import z3 as _z3
+    alts = [(x.pred(ref) if isinstance(x, RefSet) else ref == x) for x in items]
+    return _z3.Or(alts) if alts else _z3.BoolVal(False)
